@@ -489,6 +489,9 @@ def gen_terms(rng, spec, nonint=False, scale=1.0, cluster_of=None):
             if rng.random() < 0.5:
                 s1, d1, q1, s2, d2, q2 = s2, d2, q2, s1, d1, q1    # operator order not sorted by site
             terms.append(dict(symbol=" ".join(s1 + s2), dofs=d1 + d2, factor=f(), qn=q1 + q2))
+    if not terms:   # (an empty term list is C01/C02's subject, not C12's)
+        s_, d_, q_ = diag_op(0)
+        terms.append(dict(symbol=" ".join(s_), dofs=d_, factor=f(), qn=q_))
     # a three-body diagonal term
     if not nonint and n >= 3 and rng.random() < 0.4:
         tri = rng.choice(n, size=3, replace=False)
